@@ -50,6 +50,7 @@ type Sim struct {
 	collIDs map[[2]int]uint32
 	dumpN   int
 	liveEv  map[DocKey]Ev // newest live event per key, as delivered to a value-carrying feed
+	liveKO  map[DocKey]Ev // newest live event per key, as delivered to a KeysOnly feed
 	viewN   int
 	// OnIntent / OnAck let the crash engine stream every operation before it is invoked and after it returned.
 	OnIntent func(op *Op)
@@ -334,6 +335,11 @@ func (s *Sim) judgeLive(st *Step, dk DocKey, changed bool, nd *Doc) {
 					s.liveEv = map[DocKey]Ev{}
 				}
 				s.liveEv[dk] = *e
+			} else {
+				if s.liveKO == nil {
+					s.liveKO = map[DocKey]Ev{}
+				}
+				s.liveKO[dk] = *e
 			}
 			wj := &nd.JSON
 			if st.Ex.DCJSON || st.Ex.Accept == -1 {
@@ -688,6 +694,14 @@ func (s *Sim) JudgeDump(b, c int, startCas uint64, why string) {
 		wj := &d.JSON
 		s.curPreOverride(d.Class())
 		CompareEvent("backfill", "C09", e, &o, wj, s.collIDs[[2]int{b, c}], keysOnly, s.reportDump(dk), fmt.Sprintf("backfill(%s) of %s, last mutated by %s", why, dk, orDash(s.LastMut[dk])))
+		if le, ok := s.liveKO[dk]; ok && keysOnly && le.Cas == e.Cas && le.Rev == e.Rev {
+			// the same version as a KeysOnly live event and as a KeysOnly backfill event: datatype (all of it), expiry and
+			// opcode must agree here too
+			s.Ctx.Count("keysonly_backfill_events_compared_with_keysonly_live_event", 1)
+			if le.DT != e.DT || le.Exp != e.Exp || le.Op != e.Op {
+				s.reportDump(dk)([]string{"C09"}, "backfill.vs-live.keysonly", fmt.Sprintf("KeysOnly backfill(%s) of %s (CAS %d, last mutated by %s) describes the version differently from the KeysOnly live event it produced: datatype live=%d backfill=%d, expiry live=%d backfill=%d, opcode live=%d backfill=%d", why, dk, e.Cas, orDash(s.LastMut[dk]), le.DT, e.DT, le.Exp, e.Exp, le.Op, e.Op))
+			}
+		}
 		if le, ok := s.liveEv[dk]; ok && !keysOnly && le.Cas == e.Cas && le.Rev == e.Rev {
 			// the same version (a bare touch keeps the CAS but raises the revision number) as a live event and as a
 			// backfill event: the two descriptions must agree (C09)
